@@ -44,7 +44,7 @@ FLOORS = {'quick': {'histories': 530, 'serve_histories': 390, 'seed_histories': 
                     'fresh_served_from_cache': 9300, 'failed_refresh_kept_old': 920, 'refreshed_after_recovery': 340,
                     'boundary_dont_care': 1450, 'threshold_changes': 620, 'seed_stale_refetched': 1240,
                     'seed_fresh_untouched': 6900, 'seed_failed_refresh_kept_old': 95, 'stale_served_on_error': 55,
-                    'linked_histories': 18, 'linked_tile_judgements': 170, 'cache_source_histories': 20,
+                    'linked_histories': 18, 'linked_tile_judgements': 170, 'cache_source_histories': 20, 'two_source_histories': 20,
                     'stored_timestamp_of_new_tile_checked': 2000},
           'thorough': {'histories': 8500, 'serve_histories': 6500, 'seed_histories': 1900, 'seed_tasks': 4500,
                        'stale_refetched': 45000, 'fresh_served_from_cache': 137000, 'failed_refresh_kept_old': 15800,
@@ -76,7 +76,7 @@ ASSUMPTIONS = [
     "creation of missing tiles is C11's subject and only counted",
     "seed worker body (TileSeedWorker.work_loop) runs on a thread instead of a forked process; exp_backoff sleeps are "
     "replaced by zero-length sleeps with at most 3 retries",
-    "dimensions, on_error handlers and caches without timestamps are outside the quantifier; linked single-colour tiles "
+    "dimensions and caches without timestamps are outside the quantifier; on_error handlers appear in the two-sources family only; linked single-colour tiles "
     "(link_single_color_images true / hardlink) have their own small family: flat upstream whose colour is the epoch, "
     "timestamps set on the links themselves (never followed) and on the shared colour files",
     "time zone set per case via TZ/tzset, thresholds chosen away from DST changes",
@@ -1019,7 +1019,8 @@ def do_seed(w, skip_uncached):
         with contextlib.redirect_stdout(sink), contextlib.redirect_stderr(sink):
             try:
                 sconf = load_seed_tasks_conf(w.sc.seed_path, w.sc.conf)
-                tasks = sconf.seeds(['s'])
+                # every seed of the file in one run, like `mapproxy-seed` without --seed: each task has its own rule
+                tasks = sconf.seeds(None)
                 seeder.seed(tasks, concurrency=1, dry_run=False, skip_uncached=skip_uncached)
             except BaseException as ex:      # SeedInterrupted etc.
                 if isinstance(ex, (KeyboardInterrupt, SystemExit)):
@@ -1040,6 +1041,15 @@ def run_seed(run, case, spec, sops, d):
         seedconf['coverages'] = {'cov': {'bbox': list(sops['coverage_bbox']), 'srs': spec['grid']['srs']}}
         seedconf['seeds']['s']['coverages'] = ['cov']
     seedconf['seeds']['s']['refresh_before'] = {'hours': 1}     # placeholder, rewritten below (needs the world's T0)
+    if case['i'] % 2 == 1:
+        # a second seed on the same cache and grid with another rule (nothing is old enough for it) and a small coverage
+        # of its own: thresholds belong to tasks, not to the cache the tasks share
+        gb = spec['grid']['bbox']
+        seedconf.setdefault('coverages', {})['cov_other'] = {
+            'bbox': [gb[0], gb[1], gb[0] + (gb[2] - gb[0]) * 0.02, gb[1] + (gb[3] - gb[1]) * 0.02], 'srs': spec['grid']['srs']}
+        seedconf['seeds']['zz_other'] = {'caches': ['c'], 'grids': ['g'], 'levels': spec['levels'], 'coverages': ['cov_other'],
+                                         'refresh_before': {'time': '2000-01-01T00:00:00'}}
+        run.count('seed_runs_with_a_second_seed_on_the_same_cache')
     w = World(run, spec, d, seed_conf=seedconf)
     J = Judge(run, case, spec, sops, w)
     cache_rule = spec.get('cache_rule')
@@ -1266,6 +1276,8 @@ def gen_cases(run):
             yield {'i': i, 'mode': 'linked'}
         if i % 20 == 13:
             yield {'i': i, 'mode': 'cache_source'}
+        if i % 20 == 17:
+            yield {'i': i, 'mode': 'two_sources'}
         yield {'i': i, 'mode': 'seed' if i % 4 == 3 else 'serve'}
 
 
@@ -1276,6 +1288,132 @@ def gen_cases(run):
 # ---------------------------------------------------------------------------------------------------------------------
 
 LINK_COLOURS = [(10, 200, 30), (200, 40, 40), (30, 60, 220), (240, 240, 20)]
+
+
+def run_two_sources(run, case, d):
+    """a cache built from two sources, the upper one with `on_error: {500: {response: transparent, cache: false}}`. While
+    that upstream fails, a stale tile is answered with what can be had, but the complete old tile stays in the cache; once
+    the upstream is back the tile is refreshed."""
+    from mapproxy.cache.tile import Tile
+    rng = run.rng('twosrc', case['i'])
+    backend = rng.choice(['file', 'sqlite'])
+    meta = rng.choice([[1, 1], [2, 2]])
+    via = rng.choice(['tiles', 'tm'])
+    state = {'epoch': 0, 'fail_top': False}
+    up = upstream.install()
+    up.faults.clear()
+    up.reset_log()
+
+    def mk(which):
+        def handler(call):
+            if which == 'top' and state['fail_top']:
+                return upstream.Resp(b'broken', 'text/plain', 500)
+            try:
+                size = (int(call.params.get('width', 64)), int(call.params.get('height', 64)))
+            except ValueError:
+                size = (64, 64)
+            size = (max(1, min(size[0], 1024)), max(1, min(size[1], 1024)))
+            from PIL import Image
+            e = state['epoch']
+            if which == 'base':
+                im = Image.new('RGBA', size, (30 + 40 * e, 90, 200, 255))
+            else:
+                im = Image.new('RGBA', size, (0, 0, 0, 0))
+                im.paste((230, 200 - 50 * e, 20, 255), (size[0] // 2, 0, size[0], size[1]))
+            im.putpixel((1, 1), (7, 7, 7, 255))
+            b = io.BytesIO()
+            im.save(b, 'PNG')
+            return upstream.Resp(b.getvalue(), 'image/png')
+        return handler
+    up.register('tbase', mk('base'))
+    up.register('ttop', mk('top'))
+    now = int(time.time())
+    T0 = now - 30 * 86400
+    conf = scenario.base_conf()
+    conf['grids']['g'] = {'srs': 'EPSG:3857', 'bbox': [-20037508.342789244, -20037508.342789244, 20037508.342789244, 20037508.342789244],
+                          'tile_size': [64, 64], 'num_levels': 4, 'origin': 'll'}
+    conf['sources']['base'] = {'type': 'wms', 'req': {'url': 'http://tbase/service?', 'layers': 'a'}, 'supported_srs': ['EPSG:3857']}
+    conf['sources']['top'] = {'type': 'wms', 'req': {'url': 'http://ttop/service?', 'layers': 'a', 'transparent': True},
+                              'supported_srs': ['EPSG:3857'],
+                              'on_error': {500: {'response': 'transparent', 'cache': False}}}
+    conf['caches']['c'] = {'grids': ['g'], 'sources': ['base', 'top'], 'format': 'image/png', 'request_format': 'image/png',
+                           'meta_size': meta, 'meta_buffer': 0,
+                           'cache': {'type': 'sqlite'} if backend == 'sqlite' else {'type': 'file', 'directory_layout': 'tc'},
+                           'refresh_before': {'time': time.strftime('%Y-%m-%dT%H:%M:%S', time.localtime(T0))}}
+    conf['layers'] = [{'name': 'l', 'title': 'l', 'sources': ['c']}]
+    conf['services'] = {'tms': {}}
+    sc = scenario.Scenario(d, conf)
+    tm = sc.tile_manager('c')
+    A = (rng.randrange(4), rng.randrange(4), 2)
+    hist = []
+    mech0 = {'mode': 'two_sources', 'backend': backend, 'meta': '%dx%d' % tuple(meta), 'via': via}
+
+    def stored():
+        t = Tile(A)
+        tm.cache.load_tile(t)
+        if t.source is None:
+            return None
+        return hashlib.sha1(t.source.as_buffer().read()).hexdigest()
+
+    def stamp_old():
+        ts = T0 - 3600
+        if backend == 'sqlite':
+            for z in range(4):
+                p_ = os.path.join(tm.cache.cache_dir, '%d.mbtile' % z)
+                if os.path.exists(p_):
+                    con = sqlite3.connect(p_, timeout=20)
+                    try:
+                        con.execute('UPDATE tiles SET last_modified=?', (time.strftime('%Y-%m-%d %H:%M:%S', time.localtime(ts)),))
+                        con.commit()
+                    finally:
+                        con.close()
+        else:
+            for rt, _, fs in os.walk(tm.cache.cache_dir):
+                for f in fs:
+                    os.utime(os.path.join(rt, f), (ts, ts))
+
+    def ask(label):
+        n0 = len(up.log)
+        if via == 'tiles':
+            r = sc.get('/tiles/l/EPSG3857/%d/%d/%d.png' % (A[2], A[0], A[1]))
+            ok = r.code == 200
+        else:
+            with tm.session():
+                t = tm.load_tile_coord(A, with_metadata=True)
+            ok = t.source is not None
+        calls = [c.host for c in up.log[n0:]]
+        hist.append('%s -> %s, upstream calls %r, stored tile %s' % (label, 'ok' if ok else 'FAILED', calls, (stored() or 'none')[:10]))
+        return ok, calls
+
+    def bad(clause, detail, **kw):
+        run.violation(dict(mech0, clause=clause, **kw), case, 'cache of two sources, upper one with on_error 500 -> transparent, cache: false '
+                      '(%s, meta %r, via %s): %s | threshold %d | history: %s' % (backend, meta, via, detail, T0, ' ; '.join(hist)))
+    ok, calls = ask('fill (both upstreams healthy)')
+    full = stored()
+    if not ok or full is None:
+        run.dc('two_sources_fill_failed')
+        return
+    stamp_old()
+    hist.append('everything in the cache stamped threshold-3600')
+    state['fail_top'] = True
+    state['epoch'] = 1
+    ok, calls = ask('stale tile needed while the upper upstream answers 500')
+    run.judge(('two_sources', backend, tuple(meta), via, 'failed_refresh'), nontrivial=True)
+    run.hit('failed_refresh_kept_old')
+    run.hit('two_source_failed_refreshes')
+    after = stored()
+    if after != full:
+        bad('failed_refresh_destroyed_old', 'the refresh failed (upper upstream 500, on_error says cache: false) but the old complete tile '
+            'was replaced in the cache (%s -> %s)' % (full[:10], (after or 'none')[:10]), how='on_error_uncacheable_layer')
+        return
+    state['fail_top'] = False
+    ok, calls = ask('stale tile needed after the upstream recovered')
+    run.judge(('two_sources', backend, tuple(meta), via, 'recovered'), nontrivial=True)
+    run.hit('refreshed_after_recovery')
+    if not calls or stored() == full:
+        bad('stale_served', 'after the upstream recovered the stale tile was not refreshed (upstream calls %r)' % (calls,))
+        return
+    run.hit('two_source_histories')
 
 
 def run_cache_source(run, case, d):
@@ -1541,15 +1679,15 @@ def run_linked(run, case, d):
 def run_case(run, case):
     rng = run.rng('case', case['i'])
     mode = case['mode']
-    spec = case.get('spec') or (gen_spec(rng, mode) if mode not in ('linked', 'cache_source') else None)
+    spec = case.get('spec') or (gen_spec(rng, mode) if mode not in ('linked', 'cache_source', 'two_sources') else None)
     ops = case.get('ops')
-    if ops is None and mode not in ('linked', 'cache_source'):
+    if ops is None and mode not in ('linked', 'cache_source', 'two_sources'):
         ops = gen_serve_ops(rng, spec) if mode == 'serve' else gen_seed_ops(rng, spec)
     d = run.subdir('c13')
     up = upstream.install()
-    if mode in ('linked', 'cache_source'):
+    if mode in ('linked', 'cache_source', 'two_sources'):
         try:
-            (run_linked if mode == 'linked' else run_cache_source)(run, case, d)
+            {'linked': run_linked, 'cache_source': run_cache_source, 'two_sources': run_two_sources}[mode](run, case, d)
         finally:
             up.faults.clear()
             shutil.rmtree(d, ignore_errors=True)
